@@ -32,6 +32,8 @@ CONSTANTS
     Mode,             \* "off" | "local" | "remote"
     UpgradeSend, UpgradeRecheck,
     UpgraderSem,      \* remote upgrader on a full semaphore: "drop" the request (code) | "block"
+    Reloads,          \* default parameter sets the operator may switch to by a configuration reload (SIGHUP); {} = never
+    IOFaults,         \* TRUE: a write may be refused by the library with an I/O error (full disk, unusable work area)
     MaxCalls,         \* calls per client
     Kinds,            \* request kinds clients may issue
     InitFiles         \* initial directory
@@ -45,9 +47,10 @@ VARIABLES
     upq,       \* remote upgrade channel (sequence of requests)
     sem,       \* remote upgrader: running upload goroutines
     ack,       \* ghost: what the last acknowledged client write per user established
-    owed       \* ghost: successful writes whose notification has not been sent yet (C19)
+    owed,      \* ghost: successful writes whose notification has not been sent yet (C19)
+    dflt       \* the default parameter set in use (Default at start; changed by a reload)
 
-vars == <<chans, disp, files, cl, notifyQ, upq, sem, ack, owed>>
+vars == <<chans, disp, files, cl, notifyQ, upq, sem, ack, owed, dflt>>
 
 PolicyPass(u, p) == (u \o "/" \o p) \in PolicyOK
 
@@ -75,21 +78,28 @@ UpgradeClient == "upgrade"      \* requests without response channel
 
 AuthOK(fs, u, p) == fs[u].present /\ fs[u].pw = p
 
+(* what the dispatcher re-validates before it executes a queued upgrade request: "full" = the password still     *)
+(* authenticates and the record is still upgradeable (code), "setonly" = only the latter, "none" = nothing       *)
+Recheck(fs, u, p) ==
+    CASE UpgradeRecheck = "full"    -> AuthOK(fs, u, p) /\ fs[u].set # dflt
+      [] UpgradeRecheck = "setonly" -> fs[u].present /\ fs[u].set # dflt
+      [] OTHER                      -> TRUE
+
 Exec(fs, op, isUpgrade) ==
     CASE op.k = "auth" ->
             [files |-> fs, mut |-> FALSE,
              res |-> [ok |-> AuthOK(fs, op.u, op.p), adm |-> AuthOK(fs, op.u, op.p) /\ fs[op.u].adm,
-                      upg |-> AuthOK(fs, op.u, op.p) /\ fs[op.u].set # Default, list |-> {}]]
+                      upg |-> AuthOK(fs, op.u, op.p) /\ fs[op.u].set # dflt, list |-> {}]]
       [] op.k = "update" ->
             IF /\ PolicyPass(op.u, op.p)
                /\ fs[op.u].present
-               /\ (isUpgrade /\ UpgradeRecheck) => (AuthOK(fs, op.u, op.p) /\ fs[op.u].set # Default)
-            THEN [files |-> [fs EXCEPT ![op.u] = File(op.p, Default, @.adm)], mut |-> TRUE,
+               /\ isUpgrade => Recheck(fs, op.u, op.p)
+            THEN [files |-> [fs EXCEPT ![op.u] = File(op.p, dflt, @.adm)], mut |-> TRUE,
                   res |-> [NoRes EXCEPT !.ok = TRUE]]
             ELSE [files |-> fs, mut |-> FALSE, res |-> NoRes]
       [] op.k = "add" ->
             IF PolicyPass(op.u, op.p) /\ ~fs[op.u].present
-            THEN [files |-> [fs EXCEPT ![op.u] = File(op.p, Default, op.a)], mut |-> TRUE,
+            THEN [files |-> [fs EXCEPT ![op.u] = File(op.p, dflt, op.a)], mut |-> TRUE,
                   res |-> [NoRes EXCEPT !.ok = TRUE]]
             ELSE [files |-> fs, mut |-> FALSE, res |-> NoRes]
       [] op.k = "remove" ->
@@ -109,14 +119,14 @@ Exec(fs, op, isUpgrade) ==
 ClientCall(c, op) ==
     /\ cl[c].pc = "idle" /\ cl[c].n < MaxCalls
     /\ cl' = [cl EXCEPT ![c] = [pc |-> "calling", op |-> op, n |-> @.n + 1]]
-    /\ UNCHANGED <<chans, disp, files, notifyQ, upq, sem, ack, owed>>
+    /\ UNCHANGED <<chans, disp, files, notifyQ, upq, sem, ack, owed, dflt>>
 
 ClientSend(c) ==
     /\ cl[c].pc = "calling"
     /\ Len(chans[cl[c].op.k]) < Cap
     /\ chans' = [chans EXCEPT ![cl[c].op.k] = Append(@, [c |-> c, op |-> cl[c].op])]
     /\ cl' = [cl EXCEPT ![c].pc = "waiting"]
-    /\ UNCHANGED <<disp, files, notifyQ, upq, sem, ack, owed>>
+    /\ UNCHANGED <<disp, files, notifyQ, upq, sem, ack, owed, dflt>>
 
 -----------------------------------------------------------------------------
 (* Dispatcher                                                              *)
@@ -125,7 +135,7 @@ DispRecv(k) ==
     /\ disp.pc = "idle" /\ chans[k] # <<>>
     /\ disp' = [pc |-> "exec", req |-> Head(chans[k]), res |-> NoRes]
     /\ chans' = [chans EXCEPT ![k] = Tail(@)]
-    /\ UNCHANGED <<files, cl, notifyQ, upq, sem, ack, owed>>
+    /\ UNCHANGED <<files, cl, notifyQ, upq, sem, ack, owed, dflt>>
 
 IsWrite(op) == op.k \in {"update", "add", "remove", "setadmin"}
 
@@ -147,10 +157,18 @@ ExecStep(req) ==
                           ELSE IF r.mut THEN "notify"
                           ELSE IF up THEN "done" ELSE "reply"]
 
+(* The library reports an I/O failure for a write: nothing changes, nobody is notified, the caller    *)
+(* (or, for an upgrade, nobody) gets the error.  Also shared with the trace specification.            *)
+ExecStepIOFail(req) ==
+    /\ IsWrite(req.op) /\ req.op.k # "remove"          \* RemoveUser reports nothing (known finding of C09)
+    /\ UNCHANGED <<files, owed, ack>>
+    /\ disp' = [req |-> req, res |-> NoRes, pc |-> IF req.c = UpgradeClient THEN "done" ELSE "reply"]
+
 DispExec ==
     /\ disp.pc = "exec"
-    /\ ExecStep(disp.req)
-    /\ UNCHANGED <<chans, cl, notifyQ, upq, sem>>
+    /\ \/ ExecStep(disp.req)
+       \/ IOFaults /\ ExecStepIOFail(disp.req)
+    /\ UNCHANGED <<chans, cl, notifyQ, upq, sem, dflt>>
 
 UpReq == [c |-> UpgradeClient, op |-> [k |-> "update", u |-> disp.req.op.u, p |-> disp.req.op.p, a |-> FALSE]]
 
@@ -169,7 +187,7 @@ DispUpgradeSend ==
                   /\ UNCHANGED upq
             /\ UNCHANGED chans
     /\ disp' = [disp EXCEPT !.pc = "reply"]
-    /\ UNCHANGED <<files, cl, notifyQ, sem, ack, owed>>
+    /\ UNCHANGED <<files, cl, notifyQ, sem, ack, owed, dflt>>
 
 DispNotify ==
     /\ disp.pc = "notify"
@@ -177,35 +195,35 @@ DispNotify ==
     /\ notifyQ' = notifyQ + 1
     /\ owed > 0 /\ owed' = owed - 1
     /\ disp' = [disp EXCEPT !.pc = IF disp.req.c = UpgradeClient THEN "done" ELSE "reply"]
-    /\ UNCHANGED <<chans, files, cl, upq, sem, ack>>
+    /\ UNCHANGED <<chans, files, cl, upq, sem, ack, dflt>>
 
 DispReply ==
     /\ disp.pc = "reply"
     /\ cl' = [cl EXCEPT ![disp.req.c] = [@ EXCEPT !.pc = "idle", !.op = NoOp]]
     /\ disp' = Idle
-    /\ UNCHANGED <<chans, files, notifyQ, upq, sem, ack, owed>>
+    /\ UNCHANGED <<chans, files, notifyQ, upq, sem, ack, owed, dflt>>
 
 DispUpgradeDone ==
     /\ disp.pc = "done"
     /\ disp' = Idle
-    /\ UNCHANGED <<chans, files, cl, notifyQ, upq, sem, ack, owed>>
+    /\ UNCHANGED <<chans, files, cl, notifyQ, upq, sem, ack, owed, dflt>>
 
 -----------------------------------------------------------------------------
 (* Hooks goroutine (module Hooks refines this) and remote upgrader         *)
 
 HooksRecv ==
     /\ notifyQ > 0 /\ notifyQ' = notifyQ - 1
-    /\ UNCHANGED <<chans, disp, files, cl, upq, sem, ack, owed>>
+    /\ UNCHANGED <<chans, disp, files, cl, upq, sem, ack, owed, dflt>>
 
 UpgraderRecv ==     \* the code never blocks here: it starts an upload or drops the request
     /\ upq # <<>> /\ upq' = Tail(upq)
     /\ UpgraderSem = "block" => sem < SemCap
     /\ sem' = IF sem < SemCap THEN sem + 1 ELSE sem
-    /\ UNCHANGED <<chans, disp, files, cl, notifyQ, ack, owed>>
+    /\ UNCHANGED <<chans, disp, files, cl, notifyQ, ack, owed, dflt>>
 
 UploadDone ==       \* the master answered; no fairness: it may be unreachable or stalled forever
     /\ sem > 0 /\ sem' = sem - 1
-    /\ UNCHANGED <<chans, disp, files, cl, notifyQ, upq, ack, owed>>
+    /\ UNCHANGED <<chans, disp, files, cl, notifyQ, upq, ack, owed, dflt>>
 
 Quiescent ==
     /\ \A c \in Clients : cl[c].pc = "idle" /\ cl[c].n = MaxCalls
@@ -217,10 +235,21 @@ Terminated == Quiescent /\ sem = 0 /\ UNCHANGED vars
 DispNext == (\E k \in ChanNames : DispRecv(k)) \/ DispExec \/ DispUpgradeSend \/ DispNotify
             \/ DispReply \/ DispUpgradeDone
 
-Next ==
+(* SIGHUP: the dispatcher, between two requests, loads a configuration with another default parameter set. *)
+(* Requests already queued - in particular upgrade requests - stay queued.                                 *)
+DispReload(d) ==
+    /\ disp.pc = "idle" /\ d \in Reloads /\ d # dflt
+    /\ dflt' = d
+    /\ UNCHANGED <<chans, disp, files, cl, notifyQ, upq, sem, ack, owed>>
+
+CoreNext ==
     \/ \E c \in Clients, op \in Ops : ClientCall(c, op)
     \/ \E c \in Clients : ClientSend(c)
-    \/ DispNext \/ HooksRecv \/ UpgraderRecv \/ UploadDone \/ Terminated
+    \/ DispNext \/ HooksRecv \/ UpgraderRecv \/ UploadDone
+
+Next == \/ CoreNext
+        \/ \E d \in Reloads : DispReload(d)
+        \/ Terminated
 
 Init ==
     /\ chans = [k \in ChanNames |-> <<>>]
@@ -230,6 +259,7 @@ Init ==
     /\ notifyQ = 0 /\ upq = <<>> /\ sem = 0
     /\ ack = [u \in Users |-> AckOf(InitFiles, u)]
     /\ owed = 0
+    /\ dflt = Default
 
 Fairness == /\ WF_vars(DispNext) /\ WF_vars(HooksRecv) /\ WF_vars(UpgraderRecv)
             /\ \A c \in Clients : WF_vars(ClientSend(c))
@@ -260,7 +290,7 @@ UpgradeKeepsPasswordAndAdmin ==
     [][(disp.pc = "exec" /\ disp.req.c = UpgradeClient) =>
           \A u \in Users : /\ files'[u].present = files[u].present
                            /\ files'[u].pw = files[u].pw /\ files'[u].adm = files[u].adm
-                           /\ files'[u].set \in {files[u].set, Default}]_vars
+                           /\ files'[u].set \in {files[u].set, dflt}]_vars
 AuthNeverMutates ==
     [][(disp.pc = "exec" /\ disp.req.op.k \in {"auth", "list"}) => files' = files]_vars
 NoUpgradeWhenOff == Mode = "off" =>
@@ -283,5 +313,5 @@ NotifyAllWhenIdle == disp.pc = "idle" => owed = 0
 (* C12 liveness: on an agent with no writers the upgrade does happen       *)
 LoginConverges ==
     \A u \in Users : [](( /\ Mode = "local" /\ disp.pc = "upsend" /\ disp.req.op.u = u
-                           /\ PolicyPass(u, disp.req.op.p)) => <>(files[u].set = Default))
+                           /\ PolicyPass(u, disp.req.op.p)) => <>(files[u].set = dflt))
 =============================================================================
